@@ -109,7 +109,8 @@ func SubDirFS(dirs []Dir) (FS, error) {
 	})
 	m := map[string]Dir{}
 	for _, d := range dirs {
-		if path.Base(d.Stat.Path) != d.Stat.Path {
+		// one path element: "." and ".." are no names, "/" is its own base
+		if nm := d.Stat.Path; path.Base(nm) != nm || nm == "." || nm == ".." || strings.ContainsRune(nm, '/') {
 			return nil, errors.WithStack(&os.PathError{Path: d.Stat.Path, Err: syscall.EISDIR, Op: "invalid path"})
 		}
 		if _, ok := m[d.Stat.Path]; ok {
